@@ -339,7 +339,10 @@ func evShrink(c *lib.Ctx, cs evCase, aspect string, impl, model evObs, avoid fun
 			}
 			reqs[i] = cands[i].request()
 		}
-		replies := c.Model(reqs)
+		replies := evModelTimed(c, reqs, 20*time.Second)
+		if replies == nil {
+			break // some candidate multiplies the work beyond reason: keep what we have
+		}
 		found := false
 		for i, cd := range cands {
 			m := evParseReply(replies[i])
